@@ -15,7 +15,8 @@ V = os.path.dirname(os.path.dirname(os.path.abspath(__file__)))
 prop, n = sys.argv[1], sys.argv[2]
 extra = sys.argv[3:]
 tier = os.environ.get("SEED_TIER", "quick")
-src = f"/tmp/mut/out_{prop}"
+src = f"/tmp/mut/{os.environ.get('SEED_PREFIX', 'out_')}{prop}"
+keep_as = os.environ.get("SEED_AS", n)
 patch, demo = f"{src}/patch{n}.diff", f"{src}/demo{n}.py"
 checks = [prop] + extra
 out = subprocess.run([f"{V}/tools/seedcheck.sh", patch, demo, tier, *checks], capture_output=True, text=True).stdout
@@ -32,7 +33,7 @@ if os.path.exists(f"{src}/notes.md"):
 if not (ok_tests and ok_demo):
     print(f"NOT CONFIRMED: tests={ok_tests} demo={ok_demo}")
     sys.exit(1)
-d = f"{V}/seeded/{prop}-{n}"
+d = f"{V}/seeded/{prop}-{keep_as}"
 os.makedirs(d, exist_ok=True)
 shutil.copy(patch, f"{d}/patch.diff")
 shutil.copy(demo, f"{d}/demo.py")
